@@ -61,14 +61,18 @@ PROPS = {
         assumptions=["per message: valid messages earlier in a stream have their legitimate effects",
                      "thread interleavings between the miner thread and the networking thread are not exhibited by the model"]),
     "C14": dict(
-        lean_core=[], lean_code=[], gen_funcs=[], harness="c14",
+        lean_core=["Props.C14"], lean_code=[], gen_funcs=[], harness="c14",
         assumptions=["ECDSA signatures are randomised: the model emits which key must sign which message, the harness verifies the implementation's signatures with python-ecdsa",
                      "partial: transactions above MAX_BLOCK_SIZE (about 1,979 inputs) are the known finding D7"]),
     "C15": dict(
-        lean_core=[], lean_code=[], gen_funcs=[], harness="c15",
+        lean_core=["Props.C15"], lean_code=[], gen_funcs=[], harness="c15",
         assumptions=["restore_annotated_public_key is the documented inverse of a hand-out", "JSON text layer is CPython's; the hex layer is modelled",
                      "atomicity with respect to process crashes (rename is atomic, writes append); OS crashes are not modelled"]),
     "C19": dict(
-        lean_core=["Props.GenTie.Params"], lean_code=["Props.GenTie.Heights"], gen_funcs=["is_time_to_connect"], harness="c19",
+        lean_core=["Props.GenTie.Params", "Props.C19"], lean_code=["Props.GenTie.Heights"], gen_funcs=["is_time_to_connect"], harness="c19",
         assumptions=["the platform selector limit (512 sockets) is not reached", "rename is atomic with respect to process crashes"]),
+    "C08": dict(
+        lean_core=[], lean_code=[], gen_funcs=[], harness="c08",
+        assumptions=["SQLite: insert-or-ignore, immediate foreign keys, explicit transactions; an unordered SELECT returns rows in insertion (rowid) order",
+                     "partial: histories in which a transaction id occurs in two stored blocks are the known finding D2"]),
 }
